@@ -5,7 +5,12 @@
 // 9-slot task channel is full and further posters block inside Schedule, then
 // the gate opens.  Observed: which messages reached their handler in each step,
 // on which goroutine, how many handlers were in flight, how many posters are
-// still blocked.  Model: lean/Cell2v/Model/SchedDisp.lean.
+// still blocked.  The gated handler also takes commands: `selfpost` makes it call
+// PostUserMessage on a sibling (or its own) mailbox FROM THE LOOP GOROUTINE — the
+// generator keeps those inside the safe region (a free slot, or a target whose run
+// is already scheduled); beyond it the loop goroutine blocks on its own channel for
+// good (Model/SchedDisp.lean `stuck`, Props/C09Sched.lean sched_loop_block_is_forever).
+// Model: lean/Cell2v/Model/SchedDisp.lean.
 package c09
 
 import (
@@ -38,6 +43,12 @@ type sdState struct {
 	gate     chan struct{}
 	started  int
 	returned int
+	cmd      chan sdCmd // commands for the handler that occupies the loop goroutine
+}
+
+type sdCmd struct {
+	mb  actor.Mailbox
+	msg int
 }
 
 type sdInv struct{ st *sdState }
@@ -65,7 +76,18 @@ func (i *sdInv) InvokeUserMessage(m interface{}) {
 	gate := st.gate
 	st.mu.Unlock()
 	if u.gate {
-		<-gate
+	wait:
+		for {
+			select {
+			case <-gate:
+				break wait
+			case c := <-st.cmd:
+				c.mb.PostUserMessage(&sdMsg{id: c.msg}) // on the dispatcher's own goroutine
+				st.mu.Lock()
+				st.returned++
+				st.mu.Unlock()
+			}
+		}
 	}
 	st.mu.Lock()
 	st.inflight--
@@ -87,7 +109,7 @@ func runSchedCase(h *hx.T, ops []sdOp) {
 	mailbox.VerifYield = nil
 	d := disp.NewScheDisp(fmt.Sprintf("c09sd%d", sdCase))
 	d.Start()
-	st := &sdState{gate: make(chan struct{})}
+	st := &sdState{gate: make(chan struct{}), cmd: make(chan sdCmd)}
 	prod := mailbox.Producer(10)
 	mbs := map[int]actor.Mailbox{}
 	get := func(mb int) actor.Mailbox {
@@ -134,6 +156,22 @@ func runSchedCase(h *hx.T, ops []sdOp) {
 			}()
 			synctest.Wait()
 			h.Emit(fmt.Sprintf("sd post mb=%d msg=%d gate=%d", op.mb, op.msg, hx.B2i(op.gate)), obs())
+		case "selfpost":
+			m := get(op.mb)
+			sent := 0
+			st.mu.Lock()
+			st.started++
+			st.mu.Unlock()
+			select {
+			case st.cmd <- sdCmd{mb: m, msg: op.msg}: // taken only by a handler parked at its gate
+				sent = 1
+			default:
+				st.mu.Lock()
+				st.started--
+				st.mu.Unlock()
+			}
+			synctest.Wait()
+			h.Emit(fmt.Sprintf("sd selfpost mb=%d msg=%d", op.mb, op.msg), obs()+fmt.Sprintf(" sent=%d", sent))
 		case "release":
 			if !gateOpen {
 				close(st.gate)
@@ -165,6 +203,10 @@ func genSched(h *hx.T) []sdOp {
 		ops = append(ops, sdOp{kind: "post", mb: gmb, msg: msg(gmb), gate: true})
 		k := []int{5, 8, 9, 10, 11, 12, 14, 16, 20}[h.R.Intn(9)]
 		h.Count(fmt.Sprintf("sched.posts-while-busy.%d", k))
+		// what the channel holds, so that handler posts stay where the loop goroutine cannot block on itself
+		sched := map[int]bool{gmb: true}
+		qlen := 0
+		selfRound := h.R.Intn(2) == 0
 		for i := 0; i < k; i++ {
 			mb := 3 + h.R.Intn(n)
 			if h.R.Intn(3) != 0 {
@@ -173,9 +215,32 @@ func genSched(h *hx.T) []sdOp {
 			if h.R.Intn(15) == 0 {
 				mb = gmb // the busy mailbox itself: taken by the interrupted run
 			}
+			if selfRound && h.R.Intn(3) == 0 && (sched[mb] || qlen < 9) {
+				// the handler on the loop goroutine posts (free slot, or the target's run is scheduled already)
+				ops = append(ops, sdOp{kind: "selfpost", mb: mb, msg: msg(mb)})
+				if !sched[mb] {
+					sched[mb] = true
+					qlen++
+					h.Count(fmt.Sprintf("sched.selfpost.slot%d", qlen))
+				} else {
+					h.Count("sched.selfpost.already-scheduled")
+				}
+				continue
+			}
 			ops = append(ops, sdOp{kind: "post", mb: mb, msg: msg(mb)})
+			if !sched[mb] {
+				sched[mb] = true
+				if qlen < 9 {
+					qlen++
+				}
+			}
 		}
 		ops = append(ops, sdOp{kind: "release"})
+		if h.R.Intn(6) == 0 {
+			mb := 3 + h.R.Intn(n)
+			ops = append(ops, sdOp{kind: "selfpost", mb: mb, msg: msg(mb)}) // no handler is executing: nothing is posted
+			h.Count("sched.selfpost.idle")
+		}
 		for i := h.R.Intn(3); i > 0; i-- {
 			mb := 3 + h.R.Intn(n)
 			ops = append(ops, sdOp{kind: "post", mb: mb, msg: msg(mb)})
@@ -208,6 +273,11 @@ func replaySdOps(h *hx.T, lines []string) {
 				cases = append(cases, nil)
 			}
 			cases[len(cases)-1] = append(cases[len(cases)-1], sdOp{kind: "post", mb: hx.KVInt(ws, "mb"), msg: hx.KVInt(ws, "msg"), gate: hx.KVInt(ws, "gate") == 1})
+		case "selfpost":
+			if len(cases) == 0 {
+				cases = append(cases, nil)
+			}
+			cases[len(cases)-1] = append(cases[len(cases)-1], sdOp{kind: "selfpost", mb: hx.KVInt(ws, "mb"), msg: hx.KVInt(ws, "msg")})
 		case "release":
 			if len(cases) == 0 {
 				cases = append(cases, nil)
@@ -233,6 +303,20 @@ func TestSched(t *testing.T) {
 			ops = append(ops, sdOp{kind: "release"})
 			runSchedCase(h, ops)
 			h.Count("sched.systematic")
+		}
+		// systematic: k foreign posts, then the handler itself fills the channel to exactly 9 (the last free slot
+		// included), posts once more to a mailbox whose run is already buffered and once to its own mailbox
+		for k := 0; k <= 8; k++ {
+			ops := []sdOp{{kind: "post", mb: 0, msg: 1, gate: true}}
+			for i := 0; i < k; i++ {
+				ops = append(ops, sdOp{kind: "post", mb: 3 + i, msg: (3+i)*100 + 1})
+			}
+			for i := k; i < 9; i++ {
+				ops = append(ops, sdOp{kind: "selfpost", mb: 3 + i, msg: (3+i)*100 + 1})
+			}
+			ops = append(ops, sdOp{kind: "selfpost", mb: 3, msg: 302}, sdOp{kind: "selfpost", mb: 0, msg: 2}, sdOp{kind: "release"})
+			runSchedCase(h, ops)
+			h.Count("sched.systematic-selfpost")
 		}
 		for i := 0; i < n; i++ {
 			runSchedCase(h, genSched(h))
